@@ -50,12 +50,11 @@ def r1_polarity(ctx, rep, R='C08.R1'):
               func=fi.qualname, where=ctx.where(fi, fi.node))
     if inner is None:
         return None
-    irets = [n for n in ast.walk(inner.node) if isinstance(n, ast.Return)]
     arg = params(inner)[0] if params(inner) else None
-    if len(irets) != 1 or arg is None:
-        rep.undecide(R, 'accept', 'the predicate is not a single return expression')
+    expr = _truth_expr(inner.node.body)
+    if expr is None or arg is None:
+        rep.undecide(R, 'accept', 'the predicate is not a chain of if/return statements')
         return None
-    expr = irets[0].value
     lits = split_literals(expr, True)
     pos = [(_any_over(e), p) for e, p in lits]
     good = len(lits) == 2 and all(a is not None for a, p in pos) and \
@@ -73,6 +72,27 @@ def r1_polarity(ctx, rep, R='C08.R1'):
               'polarity of the predicate is %s in the positive and %s in the negated list' % (pp, pn),
               key='accept:polarity', func=inner.qualname, where=ctx.where(inner, expr))
     return P_, N_
+
+
+def _truth_expr(stmts):
+    """the boolean expression a body of ``if c: return a`` / ``return b`` statements computes"""
+    if not stmts:
+        return None
+    st = stmts[0]
+    if isinstance(st, ast.Expr) and isinstance(st.value, ast.Constant):
+        return _truth_expr(stmts[1:])
+    if isinstance(st, ast.Return):
+        return st.value if st.value is not None else ast.Constant(value=False)
+    if isinstance(st, ast.If):
+        a = _truth_expr(list(st.body) + list(stmts[1:]))
+        b = _truth_expr(list(st.orelse) + list(stmts[1:]))
+        if a is None or b is None:
+            return None
+        e = ast.BoolOp(op=ast.Or(), values=[
+            ast.BoolOp(op=ast.And(), values=[st.test, a]),
+            ast.BoolOp(op=ast.And(), values=[ast.UnaryOp(op=ast.Not(), operand=st.test), b])])
+        return ast.fix_missing_locations(ast.copy_location(e, st))
+    return None
 
 
 def _owner(node):
